@@ -266,6 +266,18 @@ def observe_contour(vc, case, want_pref=True, want_resort=True, model=None):
             deltas = [np.int64(v) if isinstance(v, int) else v for v in deltas]
         elif isinstance(deltas, int):
             deltas = np.int64(deltas)
+    alpha_arg = alpha
+    typed = case.get("typed")
+    if typed:   # numpy scalars of a narrower float type, e.g. the float32 min / max of a data set
+        dt = getattr(np, typed["dtype"])
+        if typed.get("limits") and limits is not None:
+            limits = [tuple(dt(v) for v in t) for t in limits]
+        if typed.get("deltas") and deltas is not None:
+            deltas = [dt(v) for v in deltas] if isinstance(deltas, list) else dt(deltas)
+        if typed.get("alpha"):
+            alpha_arg = dt(alpha)
+            if float(alpha_arg) != alpha:
+                raise Machinery(f"alpha {alpha} is not representable as {typed['dtype']}")
     HDC = vc.HighestDensityContour
     orig = HDC.__dict__["cumsum_biggest_until"]
     inner = orig.__func__
@@ -291,7 +303,7 @@ def observe_contour(vc, case, want_pref=True, want_resort=True, model=None):
             if case.get("np_seed") is not None:
                 np.random.seed(case["np_seed"])  # default limits draw a Monte-Carlo sample
             try:
-                contour = HDC(model, alpha, limits=limits, deltas=deltas)
+                contour = HDC(model, alpha_arg, limits=limits, deltas=deltas)
             except Exception as e:  # noqa
                 obs["exc"] = f"{type(e).__name__}: {e}"[:200]
                 contour = None
@@ -314,8 +326,22 @@ def observe_contour(vc, case, want_pref=True, want_resort=True, model=None):
     obs["deltas_used"] = [float(d) for d in contour.deltas]
     obs["limits_used"] = [[float(min(t)), float(max(t))] for t in contour.limits]
     obs["fm"] = float(contour.fm)
+    # the DECLARED grid in float64: x_k = min + k * delta from the limits and cell sizes the contour
+    # reports (exact values of whatever scalar type was passed), as many cells as were returned
+    declared = [obs["limits_used"][i][0] + np.arange(len(centres[i]), dtype=float) * obs["deltas_used"][i]
+                for i in range(len(centres))]
+    gridok = True
+    for i, (x, xd) in enumerate(zip(centres, declared)):
+        d = obs["deltas_used"][i]
+        lo, hi = obs["limits_used"][i]
+        # np.arange(min, max + delta, delta): the last centre lies in [max - delta, max + delta) up to rounding
+        if not (len(x) >= 2 and np.all(np.abs(x - xd) <= 1e-12 * np.maximum(1.0, np.abs(xd)) + 1e-9 * d)
+                and hi - d * (1 + 1e-9) <= xd[-1] <= hi + d * (1 + 1e-9)):
+            gridok = False
+    obs["gridok"] = bool(gridok)
+    obs["declared"] = declared
     if want_pref:
-        obs["pref"] = reference_cell_probabilities(model, centres, obs["deltas_used"])
+        obs["pref"] = reference_cell_probabilities(model, declared, obs["deltas_used"])
     obs.update(coordinate_sets(contour, centres))
     if want_resort and obs["isarray"] and len(centres) == 2 and obs["offgrid"] == 0:
         # what the line-sorting utility returns for the returned cells in raster order
@@ -331,7 +357,8 @@ def observe_contour(vc, case, want_pref=True, want_resort=True, model=None):
 
 
 def reference_cell_probabilities(model, centres, deltas):
-    """Pref[c] = prod_i (F_i(x_i + d_i/2 | x_cond) - F_i(x_i - d_i/2 | x_cond)), the documented
+    """centres: the declared grid (min + k * delta in float64).
+    Pref[c] = prod_i (F_i(x_i + d_i/2 | x_cond) - F_i(x_i - d_i/2 | x_cond)), the documented
     cell probability, computed with explicit loops over the cell centres and the declared
     structure (no reshape / broadcasting as in cell_averaged_pdf)."""
     n = len(centres)
@@ -532,6 +559,9 @@ def case_key(case):
             k += f" same-model-object after contour(alpha={h['alpha']}) and in-place change {h['mod']}".replace("'", "")
         if case.get("np_int"):
             k += " ints=np.int64"
+        if case.get("typed"):
+            t = case["typed"]
+            k += f" {t['dtype']}:" + "+".join(x for x in ("limits", "deltas", "alpha") if t.get(x))
         if case.get("prelude"):
             k += " evaluated-after=" + ";".join(_params_digest(c["model"]) for c in case["prelude"])
         return k
@@ -687,6 +717,7 @@ def record_c02(rid, case, obs):
     ph, pl = limbs_of_array(cap["P"])
     fh, fl = limbs_of_array(obs["pref"])
     rec.update(shape=list(obs["shape"]), calls=int(cap["calls"]), aq=l2(alpha_q(case["alpha"])),
+               gridok=bool(obs.get("gridok", True)),
                limq=l2(q18(cap["limit"])), Ph=ph, Pl=pl, Fh=fh, Fl=fl,
                R=[] if "mask" not in cap else [int(v) for v in cap["mask"].ravel().tolist()],
                lastq=l2(q18(cap["last"])) if "last" in cap else [0, 0], fmq=l2(fmq))
@@ -1140,4 +1171,52 @@ def history_cases(vc, rng, cfgs, n):
         case = dict(base, alpha=alpha2, cfg=dict(cfg, grid="history"),
                     history=dict(alpha=base["alpha"], mod=mod))
         out.append(case)
+    return out
+
+
+def narrow_float_cases(vc, rng, cfgs, n_random, big):
+    """limits / cell sizes / alpha given as numpy scalars of a narrower float type (np.float32, and
+    np.float16 where the values are representable): the float32 minimum and maximum of a data set.
+    The declared values are the exact values of those scalars; the reference is computed in float64
+    from them (centres as returned, borders x -+ float(delta)/2).  big: the grids of the bug report
+    (DNVGL sea state, a few hundred cells per axis, alpha 1e-6 .. 1e-5) to include."""
+    def f32(v):
+        return float(np.float32(v))
+
+    dnv = [dict(family="Weibull", cond=None, params=dict(alpha=2.776, beta=1.471, gamma=0.8888)),
+           dict(family="LogNormal", cond=0, fixed={}, dep=dict(mu=["pow", 0.1, 1.489, 0.1901],
+                                                               sigma=["exp", 0.04, 0.1748, 0.2243]))]
+    fix = dict(dim=2, cond1="zero", cond2="none", deltas="list", limits="explicit", aniso="1", grid="float32",
+               alpha="tiny")
+    a18 = "0.000003814697265625"      # 2^-18: exactly a float32 / float16 value and a multiple of 1e-18
+    a17 = "0.00000762939453125"       # 2^-17
+    rep = [
+        dict(alpha="1e-6", limits=[[f32(0.8), f32(20.0)], [f32(1.5), f32(20.0)]], deltas=[0.05, 0.07],
+             typed=dict(dtype="float32", limits=True)),          # spurious 'could not be reached' at the parent
+        dict(alpha="1e-6", limits=[[f32(0.7), f32(20.3)], [f32(2.3), f32(19.7)]], deltas=0.05,
+             typed=dict(dtype="float32", limits=True)),          # content misses 1 - alpha by far more than a cell
+        dict(alpha="1e-5", limits=[[f32(0.8), f32(20.0)], [f32(1.5), f32(20.0)]], deltas=[0.05, 0.07],
+             typed=dict(dtype="float32", limits=True)),
+        dict(alpha=a18, limits=[[0.7, 20.3], [2.3, 19.7]], deltas=[0.1, 0.1],
+             typed=dict(dtype="float32", alpha=True)),           # 1 - alpha evaluated in float32
+        dict(alpha="1e-5", limits=[[0.7, 20.3], [2.3, 19.7]], deltas=[f32(0.1), f32(0.15)],
+             typed=dict(dtype="float32", deltas=True)),
+        dict(alpha=a17, limits=[[0.75, 20.0], [2.5, 19.75]], deltas=[0.1, 0.15],
+             typed=dict(dtype="float16", limits=True, alpha=True)),
+        dict(alpha="1e-5", limits=[[f32(0.7), f32(20.3)], [f32(2.3), f32(19.7)]], deltas=[f32(0.05), f32(0.07)],
+             typed=dict(dtype="float32", limits=True, deltas=True)),
+    ]
+    out = [dict(kind="hdc", model=dnv, cfg=fix, np_seed=None, **r) for r in rep[:big]]
+    pool = [c for c in cfgs if c["grid"] == "fit" and c["deltas"] in ("list", "scalar") and c["limits"] == "explicit"
+            and c["alpha"] in ("tiny", "small")]
+    pool = [pool[i] for i in rng.permutation(len(pool))]
+    for k, cfg in enumerate(pool[:n_random]):
+        c = make_contour_case(vc, rng, cfg, (30, 110), (8, 24))
+        what = [dict(limits=True), dict(limits=True, deltas=True), dict(deltas=True), dict(limits=True)][k % 4]
+        c["limits"] = [[f32(a), f32(b)] for a, b in c["limits"]] if what.get("limits") else c["limits"]
+        if what.get("deltas"):
+            c["deltas"] = [f32(d) for d in c["deltas"]] if isinstance(c["deltas"], list) else f32(c["deltas"])
+        c["typed"] = dict(dtype="float32", **what)
+        c["cfg"] = dict(cfg, grid="float32")
+        out.append(c)
     return out
